@@ -19,7 +19,7 @@ RULE = ('seeded generator: circular / hexagon-like / segmented / off-centre / sp
 ASSUMPTIONS = ['modes linearly independent on the mask (condition number < 1e8), as the property requires']
 PLAN = {'quick': {'gen': 8}, 'thorough': {'gen': 16, 'tests': 1}}
 REQUIRED_BUCKETS = ['modes:contiguous', 'modes:noncontiguous', 'modes:unordered', 'modes:single-high', 'normalize:True',
-                    'normalize:False', 'coords:default', 'coords:supplied', 'mask:circular', 'mask:segmented', 'mask:offcentre', 'mask:weighted', 'mask:subaperture', 'cond>1e4']
+                    'normalize:False', 'coords:default', 'coords:supplied', 'mask:circular', 'mask:segmented', 'mask:offcentre', 'mask:weighted', 'mask:subaperture', 'cond>1e4', 'coords:switched']
 REQUIRED_ANCHORS = ['anchor:zernike_fit', 'anchor:zernike_remove', 'anchor:zernike_compose', 'anchor:zernike_basis']
 REQUIRED_ORACLES = ['compose=own-basis', 'fit=coeffs', 'remove:residual-coeffs=0', 'remove=lstsq', 'remove:idempotent',
                     'remove:pure->0']
@@ -158,6 +158,41 @@ def workload(ctx, lentil):
                       'fitting a composed OPD does not return its coefficients', desc, scale=float(np.abs(coeffs).max()))
         except Exception as e:
             ctx.check(False, 'fit=coeffs', f'fit|raises={type(e).__name__}', str(e), desc)
+        # the same mask, modes and normalisation in the *other* coordinate system right afterwards (and back): a fit must
+        # depend on its current arguments only, not on which coordinates an earlier call on the same mask used
+        if i % 2 == 0 and not sub:
+            try:
+                if supplied:
+                    with probe.quiet():
+                        rho2, theta2 = lentil.zernike_coordinates(maskf)
+                    kw2 = {}
+                else:
+                    ii2, jj2 = np.indices(shape)
+                    r2, c2 = shape[0] / 2 + rng.uniform(-3, 3), shape[1] / 2 + rng.uniform(-3, 3)
+                    rad2 = np.hypot(ii2 - r2, jj2 - c2)
+                    rho2, theta2 = rad2 / rad2[mask].max(), np.arctan2(ii2 - r2, jj2 - c2) + 0.7
+                    kw2 = dict(rho=rho2, theta=theta2)
+                B2 = own_basis(modes, mask, rho2, theta2, normalize)
+                sv2 = np.linalg.svd(B2[:, mask].T, compute_uv=False)
+                if sv2[-1] > 0 and sv2[0] / sv2[-1] < 1e8:
+                    ctx.bucket('coords:switched')
+                    opd2 = np.tensordot(coeffs, B2, axes=1)
+                    fit2 = lentil.zernike_fit(opd2, maskf, modes, normalize=normalize, **kw2)
+                    r2tol = max(1e-6, sv2[0] / sv2[-1] * 1e-13)
+                    ctx.close('fit=coeffs', np.asarray(fit2, float), coeffs, r2tol, 'fit|coeffs|after-other-coordinates',
+                              'a fit on the same mask and modes gives wrong coefficients after a fit that used other coordinates', desc,
+                              scale=float(np.abs(coeffs).max()))
+                    fit3 = lentil.zernike_fit(opd_own, maskf, modes, normalize=normalize, **kw)
+                    ctx.close('fit=coeffs', np.asarray(fit3, float), coeffs, rtol, 'fit|coeffs|back-to-first-coordinates',
+                              'a fit repeated after a fit in other coordinates no longer returns the coefficients', desc,
+                              scale=float(np.abs(coeffs).max()))
+                    if normalize:
+                        res_sw = np.asarray(lentil.zernike_remove(opd2, maskf, modes, **kw2), float)
+                        ctx.close('remove:pure->0', res_sw, np.zeros(shape), r2tol, 'remove|pure|after-other-coordinates',
+                                  'an OPD made only of the removed modes is not reduced to zero after calls that used other coordinates',
+                                  desc, scale=float(np.abs(opd2).max()))
+            except Exception as e:
+                ctx.check(False, 'fit=coeffs', f'fit-switch|raises={type(e).__name__}', str(e), desc)
         # ---- remove ----------------------------------------------------------------------------------
         # zernike_remove has no normalize parameter: it works with the default (normalised) basis
         Bn = own_basis(modes, mask, rho, theta, True)
